@@ -111,6 +111,7 @@ WHITELIST = [
     ("ordered_inner_map_left_unique_partial", ["int", "int", "arr", "arr", "arr", "arr"]),
     ("ordered_get_last_as_filter", ["arr"]),
     ("chunks", ["int", "int"]),
+    ("streaming_sort_partial", ["arr", "arr", "arr2", "arr2", "arr", "arr"]),
 ]
 
 LEAN_T = {"int": "Int", "bool": "Bool", "arr": "List Int", "barr": "List Bool", "opt_arr": "Option (List Int)",
@@ -623,6 +624,11 @@ class Kernel:
             if t != "arr":
                 raise Unsupported(f"astype of a {t}")
             return "arr", x, b
+        if isinstance(n.func, ast.Attribute) and n.func.attr == "sum" and not n.args and not n.keywords:
+            t, x, b = self.expr(n.func.value, defined)             # `a.sum()` of a 1-D integer array (unbounded: no wrap-around)
+            if t != "arr":
+                raise Unsupported(f"sum of a {t}")
+            return "int", f"({x}.foldl (· + ·) 0)", b
         if isinstance(n.func, ast.Attribute) and n.func.attr in ("argmin", "argmax") and not n.args and not n.keywords:
             t, x, b = self.expr(n.func.value, defined)
             if t != "arr":
@@ -731,6 +737,14 @@ class Kernel:
                     b = b + bi + [(tmp, f"setIdxE {xb_} {xi} {x} {site}")]
                 return self.wrap(b, f"let s := {{ s with {a} := {tmp} }}").split("\n"), defined, False
             raise Unsupported(f"assignment target {type(tg).__name__}")
+        if isinstance(st, ast.AugAssign) and isinstance(st.target, ast.Subscript) and isinstance(st.target.value, ast.Name) and \
+                isinstance(st.target.slice, ast.Name) and isinstance(st.op, (ast.Add, ast.Sub)):
+            # `a[k] += e` with a plain variable `k`: `a[k] = a[k] + e` (the index is a variable, so reading it twice is the same)
+            load = ast.Subscript(value=ast.Name(id=st.target.value.id, ctx=ast.Load()),
+                                 slice=ast.Name(id=st.target.slice.id, ctx=ast.Load()), ctx=ast.Load())
+            store = ast.Subscript(value=ast.Name(id=st.target.value.id, ctx=ast.Load()),
+                                  slice=ast.Name(id=st.target.slice.id, ctx=ast.Load()), ctx=ast.Store())
+            return self.simple(ast.Assign(targets=[store], value=ast.BinOp(left=load, op=st.op, right=st.value)), defined, top)
         if isinstance(st, ast.AugAssign):
             if not isinstance(st.target, ast.Name):
                 raise Unsupported("augmented assignment to a subscript")
